@@ -317,7 +317,7 @@ class WalletKey(object):
         >>> wk.address
         'bc1qukcgc3guzt0a27j7vdegtgwxsrv4khc4688ycs'
         >>> wk # doctest:+ELLIPSIS
-        <WalletKey(key_id=..., name=import_key, wif=zprvAWgYBBk7JR8GjN16pTBZUQvAgYBvsFM9g6Pu33oScnYHTEzphkbYKFHckMNncUg3kug1jAs1c3uNXiKWTYmHs5xPc5EQSwihPGvZwGiZeKD, path=m)>
+        <WalletKey(key_id=..., name=import_key, address=bc1qukcgc3guzt0a27j7vdegtgwxsrv4khc4688ycs, path=m)>
 
         :param name: New key name
         :type name: str
@@ -503,7 +503,9 @@ class WalletKey(object):
         self.session.close()
 
     def __repr__(self):
-        return "<WalletKey(key_id=%d, name=%s, wif=%s, path=%s)>" % (self.key_id, self.name, self.wif, self.path)
+        # Never print private key material: show the address instead of the (possibly private) WIF
+        return "<WalletKey(key_id=%d, name=%s, address=%s, path=%s)>" % \
+               (self.key_id, self.name, self.address, self.path)
 
     @property
     def name(self):
@@ -1884,7 +1886,7 @@ class Wallet(object):
 
         >>> w = Wallet('create_legacy_wallet_test')
         >>> w.new_key('my key') # doctest:+ELLIPSIS
-        <WalletKey(key_id=..., name=my key, wif=..., path=m/84'/0'/0'/0/...)>
+        <WalletKey(key_id=..., name=my key, address=..., path=m/84'/0'/0'/0/...)>
 
         :param name: Key name. Does not have to be unique but if you use it at reference you might chooce to enforce this. If not specified 'Key #' with a unique sequence number will be used
         :type name: str
@@ -2109,7 +2111,7 @@ class Wallet(object):
 
         >>> w = Wallet('create_legacy_wallet_test')
         >>> w.get_key() # doctest:+ELLIPSIS
-        <WalletKey(key_id=..., name=..., wif=..., path=m/84'/0'/0'/0/...)>
+        <WalletKey(key_id=..., name=..., address=..., path=m/84'/0'/0'/0/...)>
 
         :param account_id: Account ID. Default is last used or created account ID.
         :type account_id: int
@@ -2559,7 +2561,7 @@ class Wallet(object):
         >>> w = Wallet('bitcoinlib_legacy_wallet_test')
         >>> all_wallet_keys = w.keys()
         >>> w.keys(depth=0) # doctest:+ELLIPSIS
-        [<DbKey(id=..., name='bitcoinlib_legacy_wallet_test', wif='xprv9s21ZrQH143K3cxbMVswDTYgAc9CeXABQjCD9zmXCpXw4MxN93LanEARbBmV3utHZS9Db4FX1C1RbC5KSNAjQ5WNJ1dDBJ34PjfiSgRvS8x'>]
+        [<DbKey(id=..., name='bitcoinlib_legacy_wallet_test', address='...'>]
 
         Returns a list of DbKey object or dictionary object if as_dict is True
 
